@@ -130,6 +130,37 @@ def field_writes(prog, m, field):
   return out
 
 
+def values_in_order(x, M):
+  """Is `x` an iterable that yields `self._selector_map[s]` for the elements `s` of the list named M, in order and unfiltered?
+  (map over the bound __getitem__ or a one-argument lambda, a generator / list comprehension, iter()/list()/tuple() around one)"""
+  def lookup_of(e, var):
+    return isinstance(e, ast.Subscript) and u(e.value) == 'self._selector_map' and isinstance(e.slice, ast.Name) and e.slice.id == var
+  if isinstance(x, ast.Call) and isinstance(x.func, ast.Name) and not x.keywords:
+    if x.func.id in ('iter', 'list', 'tuple') and len(x.args) == 1:
+      return values_in_order(x.args[0], M)
+    if x.func.id == 'map' and len(x.args) == 2 and u(x.args[1]) == M:
+      f = x.args[0]
+      if u(f) == 'self._selector_map.__getitem__':
+        return True
+      if isinstance(f, ast.Lambda):
+        a = f.args
+        if len(a.args) == 1 and not (a.posonlyargs or a.kwonlyargs or a.vararg or a.kwarg or a.defaults):
+          return lookup_of(f.body, a.args[0].arg)
+    return False
+  if isinstance(x, (ast.GeneratorExp, ast.ListComp)) and len(x.generators) == 1:
+    gen = x.generators[0]
+    return not gen.ifs and not gen.is_async and isinstance(gen.target, ast.Name) and u(gen.iter) == M and lookup_of(x.elt, gen.target.id)
+  return False
+
+
+def first_or_default(e, M):
+  """`next(<values of the matches M in order>, <fallback>)`: returns the fallback expression, else None"""
+  if isinstance(e, ast.Call) and isinstance(e.func, ast.Name) and e.func.id == 'next' and len(e.args) == 2 and not e.keywords \
+      and values_in_order(e.args[0], M):
+    return e.args[1]
+  return None
+
+
 def run(ctx):
   prog = ctx.prog
   ctx.assume('T3', 'T6', 'T7')
@@ -354,15 +385,34 @@ def run(ctx):
   if M is None:
     raise AnalysisError('get_match no longer takes its candidates from matching_selectors')
   rets = [n for n in g.live_nodes() if n.kind == 'return' and n.ast.value is not None and u(n.ast.value).replace(' ', '') == 'self._selector_map[%s[0]]' % M]
-  ok = bool(rets) and all(card_cases(facts[n.id], M) == {1} for n in rets)
+  ok = all(card_cases(facts[n.id], M) == {1} for n in rets)
   amb = [n for n in g.live_nodes() if n.kind == 'raise_stmt' and card_cases(facts[n.id], M) == {2, 3}]
   dflt = [n for n in g.live_nodes() if n.kind == 'return' and u(n.ast.value) == gm.params[2] and card_cases(facts[n.id], M) == {0}]
-  other = [n for n in g.live_nodes() if n.kind in ('return', 'raise_stmt') and n not in rets and n not in amb and n not in dflt]
-  unreadable = [n for n in other if n.kind == 'return' and n.ast.value is not None
+  # `next(<the stored values of the matches, in order>, default)`: the first match's value, or the default when there is
+  # none -- right for no match and for one match, wrong (first of several, silently) wherever several matches can arrive
+  fod, fod_ok = [], []
+  for n in g.live_nodes():
+    fb = first_or_default(n.ast.value, M) if n.kind == 'return' and n.ast.value is not None else None
+    if fb is None:
+      continue
+    cases = card_cases(facts[n.id], M)
+    if 0 in cases and not (isinstance(fb, ast.Name) and fb.id == gm.params[2]):
+      if not isinstance(fb, ast.Constant):
+        continue     # the fallback is neither the default parameter nor a constant: unreadable below
+      fod.append(n)  # a constant is answered instead of the caller's default when nothing matches: wrong
+      continue
+    fod.append(n)
+    if cases and cases <= {0, 1}:
+      fod_ok.append(n)
+  other = [n for n in g.live_nodes() if n.kind in ('return', 'raise_stmt') and n not in rets and n not in amb and n not in dflt and n not in fod_ok]
+  unreadable = [n for n in other if n.kind == 'return' and n.ast.value is not None and n not in fod
                 and u(n.ast.value).replace(' ', '') not in ('self._selector_map[%s[0]]' % M, gm.params[2])]
   if unreadable:
     raise AnalysisError('get_match returns `%s`: a result expression this rule cannot classify by the number of matches' % u(unreadable[0].ast.value))
-  ok = ok and not other
+  one = bool(rets) or any(1 in card_cases(facts[n.id], M) for n in fod_ok)
+  none = bool(dflt) or any(0 in card_cases(facts[n.id], M) for n in fod_ok)
+  ok = ok and one and not other
+  dflt = none
   ctx.check(ok and amb and dflt, 'C08.exact-first', smc + '.get_match',
             'one match returns its value, several raise (ambiguous), none returns the default',
             'get_match no longer implements one / several=raise / none=default', gm.loc(), instance='get_match')
